@@ -77,21 +77,29 @@ theorem rinv_idle {s s' : State} {a : ActorId} {c : Choice} (bnd : Bnd s) (lv : 
   conc_split hs
   all_goals (
     refine ⟨fun rec hrec => ?_, fun p hp => ?_, fun b => ?_, fun t ht => ?_⟩
-    · have := l1; have := r3
-      clear r1 r2 r3 l1
-      (try log2_simp_at hrec); grind
-    · clear r0 r2 r3
-      (try log2_simp_at hp); grind
-    · have := r2 b
+    · first
+      | exact r0 rec hrec
+      | (have := l1; have := r3
+         clear r1 r2 r3 l1
+         (try log2_simp_at hrec); grind)
+    · first
+      | exact r1 p hp
+      | (clear r0 r2 r3
+         (try log2_simp_at hp); grind)
+    · have hr2b := r2 b
       clear r0 r2 r3
       by_cases hba : b = a
       · subst hba; (try log2_simp); grind
       · have hab : ¬ a = b := fun h => hba h.symm
         try simp only [State.put, State.putS, State.finish, State.write, upd_apply, if_neg hba, if_neg hab]
-        (try log2_simp); grind
-    · have := r3 t
-      clear r0 r1 r2 r3
-      (try log2_simp_at ht); grind)
+        first
+        | exact hr2b
+        | ((try log2_simp); grind)
+    · first
+      | exact r3 t ht
+      | (have := r3 t
+         clear r0 r1 r2 r3
+         (try log2_simp_at ht); grind))
 
 set_option maxHeartbeats 1000000 in
 theorem rinv_begin {s s' : State} {a : ActorId} {c : Choice} (bnd : Bnd s) (lv : Linv s) (g : Rinv s)
@@ -107,21 +115,29 @@ theorem rinv_begin {s s' : State} {a : ActorId} {c : Choice} (bnd : Bnd s) (lv :
   conc_split hs
   all_goals (
     refine ⟨fun rec hrec => ?_, fun p hp => ?_, fun b => ?_, fun t ht => ?_⟩
-    · have := l1; have := r3
-      clear r1 r2 r3 l1
-      (try log2_simp_at hrec); grind
-    · clear r0 r2 r3
-      (try log2_simp_at hp); grind
-    · have := r2 b
+    · first
+      | exact r0 rec hrec
+      | (have := l1; have := r3
+         clear r1 r2 r3 l1
+         (try log2_simp_at hrec); grind)
+    · first
+      | exact r1 p hp
+      | (clear r0 r2 r3
+         (try log2_simp_at hp); grind)
+    · have hr2b := r2 b
       clear r0 r2 r3
       by_cases hba : b = a
       · subst hba; (try log2_simp); grind
       · have hab : ¬ a = b := fun h => hba h.symm
         try simp only [State.put, State.putS, State.finish, State.write, upd_apply, if_neg hba, if_neg hab]
-        (try log2_simp); grind
-    · have := r3 t
-      clear r0 r1 r2 r3
-      (try log2_simp_at ht); grind)
+        first
+        | exact hr2b
+        | ((try log2_simp); grind)
+    · first
+      | exact r3 t ht
+      | (have := r3 t
+         clear r0 r1 r2 r3
+         (try log2_simp_at ht); grind))
 
 set_option maxHeartbeats 1000000 in
 theorem rinv_commit {s s' : State} {a : ActorId} {c : Choice} (bnd : Bnd s) (lv : Linv s) (g : Rinv s)
@@ -137,21 +153,29 @@ theorem rinv_commit {s s' : State} {a : ActorId} {c : Choice} (bnd : Bnd s) (lv 
   conc_split hs
   all_goals (
     refine ⟨fun rec hrec => ?_, fun p hp => ?_, fun b => ?_, fun t ht => ?_⟩
-    · have := l1; have := r3
-      clear r1 r2 r3 l1
-      (try log2_simp_at hrec); grind
-    · clear r0 r2 r3
-      (try log2_simp_at hp); grind
-    · have := r2 b
+    · first
+      | exact r0 rec hrec
+      | (have := l1; have := r3
+         clear r1 r2 r3 l1
+         (try log2_simp_at hrec); grind)
+    · first
+      | exact r1 p hp
+      | (clear r0 r2 r3
+         (try log2_simp_at hp); grind)
+    · have hr2b := r2 b
       clear r0 r2 r3
       by_cases hba : b = a
       · subst hba; (try log2_simp); grind
       · have hab : ¬ a = b := fun h => hba h.symm
         try simp only [State.put, State.putS, State.finish, State.write, upd_apply, if_neg hba, if_neg hab]
-        (try log2_simp); grind
-    · have := r3 t
-      clear r0 r1 r2 r3
-      (try log2_simp_at ht); grind)
+        first
+        | exact hr2b
+        | ((try log2_simp); grind)
+    · first
+      | exact r3 t ht
+      | (have := r3 t
+         clear r0 r1 r2 r3
+         (try log2_simp_at ht); grind))
 
 set_option maxHeartbeats 1000000 in
 theorem rinv_abort {s s' : State} {a : ActorId} {c : Choice} (bnd : Bnd s) (lv : Linv s) (g : Rinv s)
@@ -167,21 +191,29 @@ theorem rinv_abort {s s' : State} {a : ActorId} {c : Choice} (bnd : Bnd s) (lv :
   conc_split hs
   all_goals (
     refine ⟨fun rec hrec => ?_, fun p hp => ?_, fun b => ?_, fun t ht => ?_⟩
-    · have := l1; have := r3
-      clear r1 r2 r3 l1
-      (try log2_simp_at hrec); grind
-    · clear r0 r2 r3
-      (try log2_simp_at hp); grind
-    · have := r2 b
+    · first
+      | exact r0 rec hrec
+      | (have := l1; have := r3
+         clear r1 r2 r3 l1
+         (try log2_simp_at hrec); grind)
+    · first
+      | exact r1 p hp
+      | (clear r0 r2 r3
+         (try log2_simp_at hp); grind)
+    · have hr2b := r2 b
       clear r0 r2 r3
       by_cases hba : b = a
       · subst hba; (try log2_simp); grind
       · have hab : ¬ a = b := fun h => hba h.symm
         try simp only [State.put, State.putS, State.finish, State.write, upd_apply, if_neg hba, if_neg hab]
-        (try log2_simp); grind
-    · have := r3 t
-      clear r0 r1 r2 r3
-      (try log2_simp_at ht); grind)
+        first
+        | exact hr2b
+        | ((try log2_simp); grind)
+    · first
+      | exact r3 t ht
+      | (have := r3 t
+         clear r0 r1 r2 r3
+         (try log2_simp_at ht); grind))
 
 set_option maxHeartbeats 1000000 in
 theorem rinv_after {s s' : State} {a : ActorId} {c : Choice} (bnd : Bnd s) (lv : Linv s) (g : Rinv s)
@@ -197,21 +229,29 @@ theorem rinv_after {s s' : State} {a : ActorId} {c : Choice} (bnd : Bnd s) (lv :
   conc_split hs
   all_goals (
     refine ⟨fun rec hrec => ?_, fun p hp => ?_, fun b => ?_, fun t ht => ?_⟩
-    · have := l1; have := r3
-      clear r1 r2 r3 l1
-      (try log2_simp_at hrec); grind
-    · clear r0 r2 r3
-      (try log2_simp_at hp); grind
-    · have := r2 b
+    · first
+      | exact r0 rec hrec
+      | (have := l1; have := r3
+         clear r1 r2 r3 l1
+         (try log2_simp_at hrec); grind)
+    · first
+      | exact r1 p hp
+      | (clear r0 r2 r3
+         (try log2_simp_at hp); grind)
+    · have hr2b := r2 b
       clear r0 r2 r3
       by_cases hba : b = a
       · subst hba; (try log2_simp); grind
       · have hab : ¬ a = b := fun h => hba h.symm
         try simp only [State.put, State.putS, State.finish, State.write, upd_apply, if_neg hba, if_neg hab]
-        (try log2_simp); grind
-    · have := r3 t
-      clear r0 r1 r2 r3
-      (try log2_simp_at ht); grind)
+        first
+        | exact hr2b
+        | ((try log2_simp); grind)
+    · first
+      | exact r3 t ht
+      | (have := r3 t
+         clear r0 r1 r2 r3
+         (try log2_simp_at ht); grind))
 
 set_option maxHeartbeats 1000000 in
 theorem rinv_use {s s' : State} {a : ActorId} {c : Choice} (bnd : Bnd s) (lv : Linv s) (g : Rinv s)
@@ -227,21 +267,29 @@ theorem rinv_use {s s' : State} {a : ActorId} {c : Choice} (bnd : Bnd s) (lv : L
   conc_split hs
   all_goals (
     refine ⟨fun rec hrec => ?_, fun p hp => ?_, fun b => ?_, fun t ht => ?_⟩
-    · have := l1; have := r3
-      clear r1 r2 r3 l1
-      (try log2_simp_at hrec); grind
-    · clear r0 r2 r3
-      (try log2_simp_at hp); grind
-    · have := r2 b
+    · first
+      | exact r0 rec hrec
+      | (have := l1; have := r3
+         clear r1 r2 r3 l1
+         (try log2_simp_at hrec); grind)
+    · first
+      | exact r1 p hp
+      | (clear r0 r2 r3
+         (try log2_simp_at hp); grind)
+    · have hr2b := r2 b
       clear r0 r2 r3
       by_cases hba : b = a
       · subst hba; (try log2_simp); grind
       · have hab : ¬ a = b := fun h => hba h.symm
         try simp only [State.put, State.putS, State.finish, State.write, upd_apply, if_neg hba, if_neg hab]
-        (try log2_simp); grind
-    · have := r3 t
-      clear r0 r1 r2 r3
-      (try log2_simp_at ht); grind)
+        first
+        | exact hr2b
+        | ((try log2_simp); grind)
+    · first
+      | exact r3 t ht
+      | (have := r3 t
+         clear r0 r1 r2 r3
+         (try log2_simp_at ht); grind))
 
 set_option maxHeartbeats 1000000 in
 theorem rinv_sess {s s' : State} {a : ActorId} {c : Choice} (bnd : Bnd s) (lv : Linv s) (g : Rinv s)
@@ -257,21 +305,29 @@ theorem rinv_sess {s s' : State} {a : ActorId} {c : Choice} (bnd : Bnd s) (lv : 
   conc_split hs
   all_goals (
     refine ⟨fun rec hrec => ?_, fun p hp => ?_, fun b => ?_, fun t ht => ?_⟩
-    · have := l1; have := r3
-      clear r1 r2 r3 l1
-      (try log2_simp_at hrec); grind
-    · clear r0 r2 r3
-      (try log2_simp_at hp); grind
-    · have := r2 b
+    · first
+      | exact r0 rec hrec
+      | (have := l1; have := r3
+         clear r1 r2 r3 l1
+         (try log2_simp_at hrec); grind)
+    · first
+      | exact r1 p hp
+      | (clear r0 r2 r3
+         (try log2_simp_at hp); grind)
+    · have hr2b := r2 b
       clear r0 r2 r3
       by_cases hba : b = a
       · subst hba; (try log2_simp); grind
       · have hab : ¬ a = b := fun h => hba h.symm
         try simp only [State.put, State.putS, State.finish, State.write, upd_apply, if_neg hba, if_neg hab]
-        (try log2_simp); grind
-    · have := r3 t
-      clear r0 r1 r2 r3
-      (try log2_simp_at ht); grind)
+        first
+        | exact hr2b
+        | ((try log2_simp); grind)
+    · first
+      | exact r3 t ht
+      | (have := r3 t
+         clear r0 r1 r2 r3
+         (try log2_simp_at ht); grind))
 
 set_option maxHeartbeats 1000000 in
 theorem rinv_close {s s' : State} {a : ActorId} {c : Choice} (bnd : Bnd s) (lv : Linv s) (g : Rinv s)
@@ -287,21 +343,29 @@ theorem rinv_close {s s' : State} {a : ActorId} {c : Choice} (bnd : Bnd s) (lv :
   conc_split hs
   all_goals (
     refine ⟨fun rec hrec => ?_, fun p hp => ?_, fun b => ?_, fun t ht => ?_⟩
-    · have := l1; have := r3
-      clear r1 r2 r3 l1
-      (try log2_simp_at hrec); grind
-    · clear r0 r2 r3
-      (try log2_simp_at hp); grind
-    · have := r2 b
+    · first
+      | exact r0 rec hrec
+      | (have := l1; have := r3
+         clear r1 r2 r3 l1
+         (try log2_simp_at hrec); grind)
+    · first
+      | exact r1 p hp
+      | (clear r0 r2 r3
+         (try log2_simp_at hp); grind)
+    · have hr2b := r2 b
       clear r0 r2 r3
       by_cases hba : b = a
       · subst hba; (try log2_simp); grind
       · have hab : ¬ a = b := fun h => hba h.symm
         try simp only [State.put, State.putS, State.finish, State.write, upd_apply, if_neg hba, if_neg hab]
-        (try log2_simp); grind
-    · have := r3 t
-      clear r0 r1 r2 r3
-      (try log2_simp_at ht); grind)
+        first
+        | exact hr2b
+        | ((try log2_simp); grind)
+    · first
+      | exact r3 t ht
+      | (have := r3 t
+         clear r0 r1 r2 r3
+         (try log2_simp_at ht); grind))
 
 set_option maxHeartbeats 1000000 in
 theorem rinv_exp {s s' : State} {a : ActorId} {c : Choice} (bnd : Bnd s) (lv : Linv s) (g : Rinv s)
@@ -317,21 +381,29 @@ theorem rinv_exp {s s' : State} {a : ActorId} {c : Choice} (bnd : Bnd s) (lv : L
   conc_split hs
   all_goals (
     refine ⟨fun rec hrec => ?_, fun p hp => ?_, fun b => ?_, fun t ht => ?_⟩
-    · have := l1; have := r3
-      clear r1 r2 r3 l1
-      (try log2_simp_at hrec); grind
-    · clear r0 r2 r3
-      (try log2_simp_at hp); grind
-    · have := r2 b
+    · first
+      | exact r0 rec hrec
+      | (have := l1; have := r3
+         clear r1 r2 r3 l1
+         (try log2_simp_at hrec); grind)
+    · first
+      | exact r1 p hp
+      | (clear r0 r2 r3
+         (try log2_simp_at hp); grind)
+    · have hr2b := r2 b
       clear r0 r2 r3
       by_cases hba : b = a
       · subst hba; (try log2_simp); grind
       · have hab : ¬ a = b := fun h => hba h.symm
         try simp only [State.put, State.putS, State.finish, State.write, upd_apply, if_neg hba, if_neg hab]
-        (try log2_simp); grind
-    · have := r3 t
-      clear r0 r1 r2 r3
-      (try log2_simp_at ht); grind)
+        first
+        | exact hr2b
+        | ((try log2_simp); grind)
+    · first
+      | exact r3 t ht
+      | (have := r3 t
+         clear r0 r1 r2 r3
+         (try log2_simp_at ht); grind))
 
 set_option maxHeartbeats 1000000 in
 theorem pinv_idle {s s' : State} {a : ActorId} {c : Choice} (inv1 : Inv1 s) (bnd : Bnd s) (lv : Linv s) (rv : Rinv s) (g : Pinv s)
@@ -351,22 +423,28 @@ theorem pinv_idle {s s' : State} {a : ActorId} {c : Choice} (inv1 : Inv1 s) (bnd
   conc_split hs
   all_goals (
     refine ⟨fun r hr => ?_, fun b t => ?_, fun b => ?_⟩
-    · clear p2 p3 b2
-      (try log2_simp_at hr); grind [Pre.app, Pre.len, Pre.refl, Pre.self_app]
-    · have := p2 b t; have := b2 b t
+    · first
+      | exact p1 r hr
+      | (clear p2 p3 b2
+         (try log2_simp_at hr); grind [Pre.app, Pre.len, Pre.refl, Pre.self_app])
+    · have hp2b := p2 b t; have := b2 b t
       clear p1 p2 p3 b2
       by_cases hba : b = a
       · subst hba; (try log2_simp); grind [Pre.app, Pre.len, Pre.refl, Pre.self_app]
       · have hab : ¬ a = b := fun h => hba h.symm
         try simp only [State.put, State.putS, State.finish, State.write, upd_apply, if_neg hba, if_neg hab]
-        (try log2_simp); grind [Pre.app, Pre.len, Pre.refl, Pre.self_app]
-    · have := p3 b
+        first
+        | exact hp2b
+        | ((try log2_simp); grind [Pre.app, Pre.len, Pre.refl, Pre.self_app])
+    · have hp3b := p3 b
       clear p1 p2 p3 b2
       by_cases hba : b = a
       · subst hba; (try log2_simp); grind
       · have hab : ¬ a = b := fun h => hba h.symm
         try simp only [State.put, State.putS, State.finish, State.write, upd_apply, if_neg hba, if_neg hab]
-        (try log2_simp); grind)
+        first
+        | exact hp3b
+        | ((try log2_simp); grind))
 
 set_option maxHeartbeats 1000000 in
 theorem pinv_begin {s s' : State} {a : ActorId} {c : Choice} (inv1 : Inv1 s) (bnd : Bnd s) (lv : Linv s) (rv : Rinv s) (g : Pinv s)
@@ -386,22 +464,28 @@ theorem pinv_begin {s s' : State} {a : ActorId} {c : Choice} (inv1 : Inv1 s) (bn
   conc_split hs
   all_goals (
     refine ⟨fun r hr => ?_, fun b t => ?_, fun b => ?_⟩
-    · clear p2 p3 b2
-      (try log2_simp_at hr); grind [Pre.app, Pre.len, Pre.refl, Pre.self_app]
-    · have := p2 b t; have := b2 b t
+    · first
+      | exact p1 r hr
+      | (clear p2 p3 b2
+         (try log2_simp_at hr); grind [Pre.app, Pre.len, Pre.refl, Pre.self_app])
+    · have hp2b := p2 b t; have := b2 b t
       clear p1 p2 p3 b2
       by_cases hba : b = a
       · subst hba; (try log2_simp); grind [Pre.app, Pre.len, Pre.refl, Pre.self_app]
       · have hab : ¬ a = b := fun h => hba h.symm
         try simp only [State.put, State.putS, State.finish, State.write, upd_apply, if_neg hba, if_neg hab]
-        (try log2_simp); grind [Pre.app, Pre.len, Pre.refl, Pre.self_app]
-    · have := p3 b
+        first
+        | exact hp2b
+        | ((try log2_simp); grind [Pre.app, Pre.len, Pre.refl, Pre.self_app])
+    · have hp3b := p3 b
       clear p1 p2 p3 b2
       by_cases hba : b = a
       · subst hba; (try log2_simp); grind
       · have hab : ¬ a = b := fun h => hba h.symm
         try simp only [State.put, State.putS, State.finish, State.write, upd_apply, if_neg hba, if_neg hab]
-        (try log2_simp); grind)
+        first
+        | exact hp3b
+        | ((try log2_simp); grind))
 
 set_option maxHeartbeats 1000000 in
 theorem pinv_commit {s s' : State} {a : ActorId} {c : Choice} (inv1 : Inv1 s) (bnd : Bnd s) (lv : Linv s) (rv : Rinv s) (g : Pinv s)
@@ -421,22 +505,28 @@ theorem pinv_commit {s s' : State} {a : ActorId} {c : Choice} (inv1 : Inv1 s) (b
   conc_split hs
   all_goals (
     refine ⟨fun r hr => ?_, fun b t => ?_, fun b => ?_⟩
-    · clear p2 p3 b2
-      (try log2_simp_at hr); grind [Pre.app, Pre.len, Pre.refl, Pre.self_app]
-    · have := p2 b t; have := b2 b t
+    · first
+      | exact p1 r hr
+      | (clear p2 p3 b2
+         (try log2_simp_at hr); grind [Pre.app, Pre.len, Pre.refl, Pre.self_app])
+    · have hp2b := p2 b t; have := b2 b t
       clear p1 p2 p3 b2
       by_cases hba : b = a
       · subst hba; (try log2_simp); grind [Pre.app, Pre.len, Pre.refl, Pre.self_app]
       · have hab : ¬ a = b := fun h => hba h.symm
         try simp only [State.put, State.putS, State.finish, State.write, upd_apply, if_neg hba, if_neg hab]
-        (try log2_simp); grind [Pre.app, Pre.len, Pre.refl, Pre.self_app]
-    · have := p3 b
+        first
+        | exact hp2b
+        | ((try log2_simp); grind [Pre.app, Pre.len, Pre.refl, Pre.self_app])
+    · have hp3b := p3 b
       clear p1 p2 p3 b2
       by_cases hba : b = a
       · subst hba; (try log2_simp); grind
       · have hab : ¬ a = b := fun h => hba h.symm
         try simp only [State.put, State.putS, State.finish, State.write, upd_apply, if_neg hba, if_neg hab]
-        (try log2_simp); grind)
+        first
+        | exact hp3b
+        | ((try log2_simp); grind))
 
 set_option maxHeartbeats 1000000 in
 theorem pinv_abort {s s' : State} {a : ActorId} {c : Choice} (inv1 : Inv1 s) (bnd : Bnd s) (lv : Linv s) (rv : Rinv s) (g : Pinv s)
@@ -456,22 +546,28 @@ theorem pinv_abort {s s' : State} {a : ActorId} {c : Choice} (inv1 : Inv1 s) (bn
   conc_split hs
   all_goals (
     refine ⟨fun r hr => ?_, fun b t => ?_, fun b => ?_⟩
-    · clear p2 p3 b2
-      (try log2_simp_at hr); grind [Pre.app, Pre.len, Pre.refl, Pre.self_app]
-    · have := p2 b t; have := b2 b t
+    · first
+      | exact p1 r hr
+      | (clear p2 p3 b2
+         (try log2_simp_at hr); grind [Pre.app, Pre.len, Pre.refl, Pre.self_app])
+    · have hp2b := p2 b t; have := b2 b t
       clear p1 p2 p3 b2
       by_cases hba : b = a
       · subst hba; (try log2_simp); grind [Pre.app, Pre.len, Pre.refl, Pre.self_app]
       · have hab : ¬ a = b := fun h => hba h.symm
         try simp only [State.put, State.putS, State.finish, State.write, upd_apply, if_neg hba, if_neg hab]
-        (try log2_simp); grind [Pre.app, Pre.len, Pre.refl, Pre.self_app]
-    · have := p3 b
+        first
+        | exact hp2b
+        | ((try log2_simp); grind [Pre.app, Pre.len, Pre.refl, Pre.self_app])
+    · have hp3b := p3 b
       clear p1 p2 p3 b2
       by_cases hba : b = a
       · subst hba; (try log2_simp); grind
       · have hab : ¬ a = b := fun h => hba h.symm
         try simp only [State.put, State.putS, State.finish, State.write, upd_apply, if_neg hba, if_neg hab]
-        (try log2_simp); grind)
+        first
+        | exact hp3b
+        | ((try log2_simp); grind))
 
 set_option maxHeartbeats 1000000 in
 theorem pinv_after {s s' : State} {a : ActorId} {c : Choice} (inv1 : Inv1 s) (bnd : Bnd s) (lv : Linv s) (rv : Rinv s) (g : Pinv s)
@@ -491,22 +587,28 @@ theorem pinv_after {s s' : State} {a : ActorId} {c : Choice} (inv1 : Inv1 s) (bn
   conc_split hs
   all_goals (
     refine ⟨fun r hr => ?_, fun b t => ?_, fun b => ?_⟩
-    · clear p2 p3 b2
-      (try log2_simp_at hr); grind [Pre.app, Pre.len, Pre.refl, Pre.self_app]
-    · have := p2 b t; have := b2 b t
+    · first
+      | exact p1 r hr
+      | (clear p2 p3 b2
+         (try log2_simp_at hr); grind [Pre.app, Pre.len, Pre.refl, Pre.self_app])
+    · have hp2b := p2 b t; have := b2 b t
       clear p1 p2 p3 b2
       by_cases hba : b = a
       · subst hba; (try log2_simp); grind [Pre.app, Pre.len, Pre.refl, Pre.self_app]
       · have hab : ¬ a = b := fun h => hba h.symm
         try simp only [State.put, State.putS, State.finish, State.write, upd_apply, if_neg hba, if_neg hab]
-        (try log2_simp); grind [Pre.app, Pre.len, Pre.refl, Pre.self_app]
-    · have := p3 b
+        first
+        | exact hp2b
+        | ((try log2_simp); grind [Pre.app, Pre.len, Pre.refl, Pre.self_app])
+    · have hp3b := p3 b
       clear p1 p2 p3 b2
       by_cases hba : b = a
       · subst hba; (try log2_simp); grind
       · have hab : ¬ a = b := fun h => hba h.symm
         try simp only [State.put, State.putS, State.finish, State.write, upd_apply, if_neg hba, if_neg hab]
-        (try log2_simp); grind)
+        first
+        | exact hp3b
+        | ((try log2_simp); grind))
 
 set_option maxHeartbeats 1000000 in
 theorem pinv_use {s s' : State} {a : ActorId} {c : Choice} (inv1 : Inv1 s) (bnd : Bnd s) (lv : Linv s) (rv : Rinv s) (g : Pinv s)
@@ -526,22 +628,28 @@ theorem pinv_use {s s' : State} {a : ActorId} {c : Choice} (inv1 : Inv1 s) (bnd 
   conc_split hs
   all_goals (
     refine ⟨fun r hr => ?_, fun b t => ?_, fun b => ?_⟩
-    · clear p2 p3 b2
-      (try log2_simp_at hr); grind [Pre.app, Pre.len, Pre.refl, Pre.self_app]
-    · have := p2 b t; have := b2 b t
+    · first
+      | exact p1 r hr
+      | (clear p2 p3 b2
+         (try log2_simp_at hr); grind [Pre.app, Pre.len, Pre.refl, Pre.self_app])
+    · have hp2b := p2 b t; have := b2 b t
       clear p1 p2 p3 b2
       by_cases hba : b = a
       · subst hba; (try log2_simp); grind [Pre.app, Pre.len, Pre.refl, Pre.self_app]
       · have hab : ¬ a = b := fun h => hba h.symm
         try simp only [State.put, State.putS, State.finish, State.write, upd_apply, if_neg hba, if_neg hab]
-        (try log2_simp); grind [Pre.app, Pre.len, Pre.refl, Pre.self_app]
-    · have := p3 b
+        first
+        | exact hp2b
+        | ((try log2_simp); grind [Pre.app, Pre.len, Pre.refl, Pre.self_app])
+    · have hp3b := p3 b
       clear p1 p2 p3 b2
       by_cases hba : b = a
       · subst hba; (try log2_simp); grind
       · have hab : ¬ a = b := fun h => hba h.symm
         try simp only [State.put, State.putS, State.finish, State.write, upd_apply, if_neg hba, if_neg hab]
-        (try log2_simp); grind)
+        first
+        | exact hp3b
+        | ((try log2_simp); grind))
 
 set_option maxHeartbeats 1000000 in
 theorem pinv_sess {s s' : State} {a : ActorId} {c : Choice} (inv1 : Inv1 s) (bnd : Bnd s) (lv : Linv s) (rv : Rinv s) (g : Pinv s)
@@ -561,22 +669,28 @@ theorem pinv_sess {s s' : State} {a : ActorId} {c : Choice} (inv1 : Inv1 s) (bnd
   conc_split hs
   all_goals (
     refine ⟨fun r hr => ?_, fun b t => ?_, fun b => ?_⟩
-    · clear p2 p3 b2
-      (try log2_simp_at hr); grind [Pre.app, Pre.len, Pre.refl, Pre.self_app]
-    · have := p2 b t; have := b2 b t
+    · first
+      | exact p1 r hr
+      | (clear p2 p3 b2
+         (try log2_simp_at hr); grind [Pre.app, Pre.len, Pre.refl, Pre.self_app])
+    · have hp2b := p2 b t; have := b2 b t
       clear p1 p2 p3 b2
       by_cases hba : b = a
       · subst hba; (try log2_simp); grind [Pre.app, Pre.len, Pre.refl, Pre.self_app]
       · have hab : ¬ a = b := fun h => hba h.symm
         try simp only [State.put, State.putS, State.finish, State.write, upd_apply, if_neg hba, if_neg hab]
-        (try log2_simp); grind [Pre.app, Pre.len, Pre.refl, Pre.self_app]
-    · have := p3 b
+        first
+        | exact hp2b
+        | ((try log2_simp); grind [Pre.app, Pre.len, Pre.refl, Pre.self_app])
+    · have hp3b := p3 b
       clear p1 p2 p3 b2
       by_cases hba : b = a
       · subst hba; (try log2_simp); grind
       · have hab : ¬ a = b := fun h => hba h.symm
         try simp only [State.put, State.putS, State.finish, State.write, upd_apply, if_neg hba, if_neg hab]
-        (try log2_simp); grind)
+        first
+        | exact hp3b
+        | ((try log2_simp); grind))
 
 set_option maxHeartbeats 1000000 in
 theorem pinv_close {s s' : State} {a : ActorId} {c : Choice} (inv1 : Inv1 s) (bnd : Bnd s) (lv : Linv s) (rv : Rinv s) (g : Pinv s)
@@ -596,22 +710,28 @@ theorem pinv_close {s s' : State} {a : ActorId} {c : Choice} (inv1 : Inv1 s) (bn
   conc_split hs
   all_goals (
     refine ⟨fun r hr => ?_, fun b t => ?_, fun b => ?_⟩
-    · clear p2 p3 b2
-      (try log2_simp_at hr); grind [Pre.app, Pre.len, Pre.refl, Pre.self_app]
-    · have := p2 b t; have := b2 b t
+    · first
+      | exact p1 r hr
+      | (clear p2 p3 b2
+         (try log2_simp_at hr); grind [Pre.app, Pre.len, Pre.refl, Pre.self_app])
+    · have hp2b := p2 b t; have := b2 b t
       clear p1 p2 p3 b2
       by_cases hba : b = a
       · subst hba; (try log2_simp); grind [Pre.app, Pre.len, Pre.refl, Pre.self_app]
       · have hab : ¬ a = b := fun h => hba h.symm
         try simp only [State.put, State.putS, State.finish, State.write, upd_apply, if_neg hba, if_neg hab]
-        (try log2_simp); grind [Pre.app, Pre.len, Pre.refl, Pre.self_app]
-    · have := p3 b
+        first
+        | exact hp2b
+        | ((try log2_simp); grind [Pre.app, Pre.len, Pre.refl, Pre.self_app])
+    · have hp3b := p3 b
       clear p1 p2 p3 b2
       by_cases hba : b = a
       · subst hba; (try log2_simp); grind
       · have hab : ¬ a = b := fun h => hba h.symm
         try simp only [State.put, State.putS, State.finish, State.write, upd_apply, if_neg hba, if_neg hab]
-        (try log2_simp); grind)
+        first
+        | exact hp3b
+        | ((try log2_simp); grind))
 
 set_option maxHeartbeats 1000000 in
 theorem pinv_exp {s s' : State} {a : ActorId} {c : Choice} (inv1 : Inv1 s) (bnd : Bnd s) (lv : Linv s) (rv : Rinv s) (g : Pinv s)
@@ -631,22 +751,28 @@ theorem pinv_exp {s s' : State} {a : ActorId} {c : Choice} (inv1 : Inv1 s) (bnd 
   conc_split hs
   all_goals (
     refine ⟨fun r hr => ?_, fun b t => ?_, fun b => ?_⟩
-    · clear p2 p3 b2
-      (try log2_simp_at hr); grind [Pre.app, Pre.len, Pre.refl, Pre.self_app]
-    · have := p2 b t; have := b2 b t
+    · first
+      | exact p1 r hr
+      | (clear p2 p3 b2
+         (try log2_simp_at hr); grind [Pre.app, Pre.len, Pre.refl, Pre.self_app])
+    · have hp2b := p2 b t; have := b2 b t
       clear p1 p2 p3 b2
       by_cases hba : b = a
       · subst hba; (try log2_simp); grind [Pre.app, Pre.len, Pre.refl, Pre.self_app]
       · have hab : ¬ a = b := fun h => hba h.symm
         try simp only [State.put, State.putS, State.finish, State.write, upd_apply, if_neg hba, if_neg hab]
-        (try log2_simp); grind [Pre.app, Pre.len, Pre.refl, Pre.self_app]
-    · have := p3 b
+        first
+        | exact hp2b
+        | ((try log2_simp); grind [Pre.app, Pre.len, Pre.refl, Pre.self_app])
+    · have hp3b := p3 b
       clear p1 p2 p3 b2
       by_cases hba : b = a
       · subst hba; (try log2_simp); grind
       · have hab : ¬ a = b := fun h => hba h.symm
         try simp only [State.put, State.putS, State.finish, State.write, upd_apply, if_neg hba, if_neg hab]
-        (try log2_simp); grind)
+        first
+        | exact hp3b
+        | ((try log2_simp); grind))
 
 set_option maxHeartbeats 1000000 in
 theorem hinv_idle {s s' : State} {a : ActorId} {c : Choice} (bnd : Bnd s) (g : Hinv s)
@@ -658,14 +784,16 @@ theorem hinv_idle {s s' : State} {a : ActorId} {c : Choice} (bnd : Bnd s) (g : H
   conc_split hs
   all_goals (
     intro h hh
-    (try log2_simp_at hh)
     first
-    | (have := g h hh; grind [Pre.app, Pre.refl])
-    | (rcases hh with hh | hh
-       · have := g h hh; grind [Pre.app, Pre.refl]
-       · subst hh
-         simp only [List.append_assoc, if_true]
-         grind [Pre.app, Pre.refl]))
+    | exact g h hh
+    | ((try log2_simp_at hh)
+       first
+       | (have := g h hh; grind [Pre.app, Pre.refl])
+       | (rcases hh with hh | hh
+          · have := g h hh; grind [Pre.app, Pre.refl]
+          · subst hh
+            simp only [List.append_assoc, if_true]
+            grind [Pre.app, Pre.refl])))
 
 set_option maxHeartbeats 1000000 in
 theorem hinv_begin {s s' : State} {a : ActorId} {c : Choice} (bnd : Bnd s) (g : Hinv s)
@@ -677,14 +805,16 @@ theorem hinv_begin {s s' : State} {a : ActorId} {c : Choice} (bnd : Bnd s) (g : 
   conc_split hs
   all_goals (
     intro h hh
-    (try log2_simp_at hh)
     first
-    | (have := g h hh; grind [Pre.app, Pre.refl])
-    | (rcases hh with hh | hh
-       · have := g h hh; grind [Pre.app, Pre.refl]
-       · subst hh
-         simp only [List.append_assoc, if_true]
-         grind [Pre.app, Pre.refl]))
+    | exact g h hh
+    | ((try log2_simp_at hh)
+       first
+       | (have := g h hh; grind [Pre.app, Pre.refl])
+       | (rcases hh with hh | hh
+          · have := g h hh; grind [Pre.app, Pre.refl]
+          · subst hh
+            simp only [List.append_assoc, if_true]
+            grind [Pre.app, Pre.refl])))
 
 set_option maxHeartbeats 1000000 in
 theorem hinv_commit {s s' : State} {a : ActorId} {c : Choice} (bnd : Bnd s) (g : Hinv s)
@@ -696,14 +826,16 @@ theorem hinv_commit {s s' : State} {a : ActorId} {c : Choice} (bnd : Bnd s) (g :
   conc_split hs
   all_goals (
     intro h hh
-    (try log2_simp_at hh)
     first
-    | (have := g h hh; grind [Pre.app, Pre.refl])
-    | (rcases hh with hh | hh
-       · have := g h hh; grind [Pre.app, Pre.refl]
-       · subst hh
-         simp only [List.append_assoc, if_true]
-         grind [Pre.app, Pre.refl]))
+    | exact g h hh
+    | ((try log2_simp_at hh)
+       first
+       | (have := g h hh; grind [Pre.app, Pre.refl])
+       | (rcases hh with hh | hh
+          · have := g h hh; grind [Pre.app, Pre.refl]
+          · subst hh
+            simp only [List.append_assoc, if_true]
+            grind [Pre.app, Pre.refl])))
 
 set_option maxHeartbeats 1000000 in
 theorem hinv_abort {s s' : State} {a : ActorId} {c : Choice} (bnd : Bnd s) (g : Hinv s)
@@ -715,14 +847,16 @@ theorem hinv_abort {s s' : State} {a : ActorId} {c : Choice} (bnd : Bnd s) (g : 
   conc_split hs
   all_goals (
     intro h hh
-    (try log2_simp_at hh)
     first
-    | (have := g h hh; grind [Pre.app, Pre.refl])
-    | (rcases hh with hh | hh
-       · have := g h hh; grind [Pre.app, Pre.refl]
-       · subst hh
-         simp only [List.append_assoc, if_true]
-         grind [Pre.app, Pre.refl]))
+    | exact g h hh
+    | ((try log2_simp_at hh)
+       first
+       | (have := g h hh; grind [Pre.app, Pre.refl])
+       | (rcases hh with hh | hh
+          · have := g h hh; grind [Pre.app, Pre.refl]
+          · subst hh
+            simp only [List.append_assoc, if_true]
+            grind [Pre.app, Pre.refl])))
 
 set_option maxHeartbeats 1000000 in
 theorem hinv_after {s s' : State} {a : ActorId} {c : Choice} (bnd : Bnd s) (g : Hinv s)
@@ -734,14 +868,16 @@ theorem hinv_after {s s' : State} {a : ActorId} {c : Choice} (bnd : Bnd s) (g : 
   conc_split hs
   all_goals (
     intro h hh
-    (try log2_simp_at hh)
     first
-    | (have := g h hh; grind [Pre.app, Pre.refl])
-    | (rcases hh with hh | hh
-       · have := g h hh; grind [Pre.app, Pre.refl]
-       · subst hh
-         simp only [List.append_assoc, if_true]
-         grind [Pre.app, Pre.refl]))
+    | exact g h hh
+    | ((try log2_simp_at hh)
+       first
+       | (have := g h hh; grind [Pre.app, Pre.refl])
+       | (rcases hh with hh | hh
+          · have := g h hh; grind [Pre.app, Pre.refl]
+          · subst hh
+            simp only [List.append_assoc, if_true]
+            grind [Pre.app, Pre.refl])))
 
 set_option maxHeartbeats 1000000 in
 theorem hinv_use {s s' : State} {a : ActorId} {c : Choice} (bnd : Bnd s) (g : Hinv s)
@@ -753,14 +889,16 @@ theorem hinv_use {s s' : State} {a : ActorId} {c : Choice} (bnd : Bnd s) (g : Hi
   conc_split hs
   all_goals (
     intro h hh
-    (try log2_simp_at hh)
     first
-    | (have := g h hh; grind [Pre.app, Pre.refl])
-    | (rcases hh with hh | hh
-       · have := g h hh; grind [Pre.app, Pre.refl]
-       · subst hh
-         simp only [List.append_assoc, if_true]
-         grind [Pre.app, Pre.refl]))
+    | exact g h hh
+    | ((try log2_simp_at hh)
+       first
+       | (have := g h hh; grind [Pre.app, Pre.refl])
+       | (rcases hh with hh | hh
+          · have := g h hh; grind [Pre.app, Pre.refl]
+          · subst hh
+            simp only [List.append_assoc, if_true]
+            grind [Pre.app, Pre.refl])))
 
 set_option maxHeartbeats 1000000 in
 theorem hinv_sess {s s' : State} {a : ActorId} {c : Choice} (bnd : Bnd s) (g : Hinv s)
@@ -772,14 +910,16 @@ theorem hinv_sess {s s' : State} {a : ActorId} {c : Choice} (bnd : Bnd s) (g : H
   conc_split hs
   all_goals (
     intro h hh
-    (try log2_simp_at hh)
     first
-    | (have := g h hh; grind [Pre.app, Pre.refl])
-    | (rcases hh with hh | hh
-       · have := g h hh; grind [Pre.app, Pre.refl]
-       · subst hh
-         simp only [List.append_assoc, if_true]
-         grind [Pre.app, Pre.refl]))
+    | exact g h hh
+    | ((try log2_simp_at hh)
+       first
+       | (have := g h hh; grind [Pre.app, Pre.refl])
+       | (rcases hh with hh | hh
+          · have := g h hh; grind [Pre.app, Pre.refl]
+          · subst hh
+            simp only [List.append_assoc, if_true]
+            grind [Pre.app, Pre.refl])))
 
 set_option maxHeartbeats 1000000 in
 theorem hinv_close {s s' : State} {a : ActorId} {c : Choice} (bnd : Bnd s) (g : Hinv s)
@@ -791,14 +931,16 @@ theorem hinv_close {s s' : State} {a : ActorId} {c : Choice} (bnd : Bnd s) (g : 
   conc_split hs
   all_goals (
     intro h hh
-    (try log2_simp_at hh)
     first
-    | (have := g h hh; grind [Pre.app, Pre.refl])
-    | (rcases hh with hh | hh
-       · have := g h hh; grind [Pre.app, Pre.refl]
-       · subst hh
-         simp only [List.append_assoc, if_true]
-         grind [Pre.app, Pre.refl]))
+    | exact g h hh
+    | ((try log2_simp_at hh)
+       first
+       | (have := g h hh; grind [Pre.app, Pre.refl])
+       | (rcases hh with hh | hh
+          · have := g h hh; grind [Pre.app, Pre.refl]
+          · subst hh
+            simp only [List.append_assoc, if_true]
+            grind [Pre.app, Pre.refl])))
 
 set_option maxHeartbeats 1000000 in
 theorem hinv_exp {s s' : State} {a : ActorId} {c : Choice} (bnd : Bnd s) (g : Hinv s)
@@ -810,13 +952,15 @@ theorem hinv_exp {s s' : State} {a : ActorId} {c : Choice} (bnd : Bnd s) (g : Hi
   conc_split hs
   all_goals (
     intro h hh
-    (try log2_simp_at hh)
     first
-    | (have := g h hh; grind [Pre.app, Pre.refl])
-    | (rcases hh with hh | hh
-       · have := g h hh; grind [Pre.app, Pre.refl]
-       · subst hh
-         simp only [List.append_assoc, if_true]
-         grind [Pre.app, Pre.refl]))
+    | exact g h hh
+    | ((try log2_simp_at hh)
+       first
+       | (have := g h hh; grind [Pre.app, Pre.refl])
+       | (rcases hh with hh | hh
+          · have := g h hh; grind [Pre.app, Pre.refl]
+          · subst hh
+            simp only [List.append_assoc, if_true]
+            grind [Pre.app, Pre.refl])))
 
 end Lungo.Conc
